@@ -54,6 +54,27 @@ VARIANTS = [
     ("bip32: a new predicate that answers False on a refused key", "btclib.bip32.bip32", lambda s: s + "\n\ndef is_derivable(xkey: BIP32Key, der_path: DerPath) -> bool:\n    try:\n        derive_(xkey, der_path)\n    except BTClibValueError:\n        return False\n    return True\n"),
     ("fee: a new display helper doing Decimal arithmetic", "btclib.fee", lambda s: s + "\n\ndef _display_rate(rate: FeeRate) -> str:\n    shown = Decimal(rate.sats_per_kvbyte)\n    return str(shown / 1000)\n"),
     ("psbt_signer: a new method with a parameter kept for interface compatibility", "btclib.psbt_signer", lambda s: s.replace("class SoftwareSigner:", "class _Audit:\n    def note(self, what: str, level: int = 0) -> None:\n        print(what)\n\n\nclass SoftwareSigner:", 1)),
+    # --- benign edits next to the rules added for rounds 3 and 4 ---
+    ("der_path: the path is copied first and the copy walked", "btclib.bip32.der_path", lambda s: s.replace("    indexes = list(der_path)\n    for index in indexes:\n", "    indexes = [*der_path]\n    for index in indexes:\n")),
+    ("tapscript: the sigops charge under an explicit length test", "btclib.script.engine.tapscript", lambda s: s.replace("    if signature:\n        budget -= 50\n", "    if len(signature) > 0:\n        budget -= 50\n", 1)),
+    ("script_op_codes: minimalif spelled with `in`", "btclib.script.engine.script_op_codes", lambda s: s.replace("    minimalif = segwit_version == 1 or (\n        segwit_version == 0 and ScriptFlag.MINIMALIF in flags\n    )", "    minimalif = segwit_version == 1 or (\n        segwit_version in {0} and ScriptFlag.MINIMALIF in flags\n    )")),
+    ("psbt: a per-leaf memo reset inside the loop it reads", "btclib.psbt.psbt", lambda s: s.replace("            msg_hash = taproot_sig_hash(psbt, vin_i, leaf_hash=leaf_hash)\n", "            msg_hash = None\n            if msg_hash is None:\n                msg_hash = taproot_sig_hash(psbt, vin_i, leaf_hash=leaf_hash)\n", 1)),
+    ("psbt_utils: the musig2 participants rendered through a local", "btclib.psbt.psbt_utils", lambda s: s.replace("    return {k.hex(): [x.hex() for x in v] for k, v in sorted(dict_.items())}", "    pairs = sorted(dict_.items())\n    return {k.hex(): [x.hex() for x in v] for k, v in pairs}")),
+    ("b32: the address trimmed with lstrip().rstrip()", "btclib.b32", lambda s: s.replace('    addr = str_from_string(b32addr, "address").strip()\n', '    addr = str_from_string(b32addr, "address").lstrip().rstrip()\n', 1)),
+    ("b58: the h160 size given a name", "btclib.b58", lambda s: s.replace("    payload = prefix + bytes_from_octets(h160, 20)\n", "    h160_size = 20\n    payload = prefix + bytes_from_octets(h160, h160_size)\n")),
+    ("taproot: the masked leaf version given another name", "btclib.script.taproot", lambda s: s.replace("    leaf_version, script = cast(\"TaprootLeaf\", script_tree[0])\n    leaf_version &= 0xFE\n    h = leaf_hash(leaf_version, serialize(script))\n    return ([((leaf_version, script), b\"\")], h)", "    raw_version, script = cast(\"TaprootLeaf\", script_tree[0])\n    version = raw_version & 0xFE\n    h = leaf_hash(version, serialize(script))\n    return ([((version, script), b\"\")], h)")),
+    ("rfc6979: the retry message built in a local", "btclib.ecc.rfc6979_nonce", lambda s: s.replace("        k = hmac.new(k, v + b\"\\x00\", hf).digest()\n        v = hmac.new(k, v, hf).digest()\n\n", "        k = hmac.new(k, v + b\"\\x00\", hf).digest()\n        v = hmac.new(k, v, hf).digest()\n        continue\n\n", 1)),
+    ("pedersen: the cache given a larger bound", "btclib.ecc.pedersen", lambda s: s.replace("@lru_cache(maxsize=128)", "@lru_cache(maxsize=256)")),
+    ("key: a second cached_property on the frozen, immutable PubKeyData", "btclib.key", lambda s: s.replace("class PubKeyData:", "class PubKeyData:\n    @cached_property\n    def _size(self) -> int:\n        return len(self.sec)\n", 1)),
+    ("merkle_proof: the parse answer tested in an else branch", "btclib.block.merkle_proof", lambda s: s.replace("    if is_a_tx:  # pragma: no branch\n", "    if not is_a_tx:\n        return\n    if is_a_tx:  # pragma: no branch\n")),
+    ("psbt_size: m computed through the named offset and a local", "btclib.psbt.psbt_size", lambda s: s.replace("        m = payload[0] - _OP_INT_OFFSET\n", "        op_m = payload[0]\n        m = op_m - _OP_INT_OFFSET\n")),
+    ("amount: the context pinned at the default precision", "btclib.amount", lambda s: s.replace("        ctx.traps[FloatOperation] = True\n", "        ctx.traps[FloatOperation] = True\n        ctx.prec = 28\n", 1)),
+    ("slip39: the padded width written with math.ceil-free ceiling division", "btclib.mnemonic.slip39", lambda s: s.replace("    padded = padded.zfill(-(-value_bits // _RADIX_BITS) * _RADIX_BITS)", "    padded = padded.zfill((value_bits + _RADIX_BITS - 1) // _RADIX_BITS * _RADIX_BITS)")),
+    ("musig2: the accumulators computed in locals before the answer", "btclib.ecc.musig2", lambda s: s.replace("    return KeyAggContext(Q, g * gacc % secp256k1.n, (t + g * tacc) % secp256k1.n)", "    new_gacc = g * gacc % secp256k1.n\n    new_tacc = (t + g * tacc) % secp256k1.n\n    return KeyAggContext(Q, new_gacc, new_tacc)")),
+    ("silent_payments: the group bound compared the other way round", "btclib.silent_payments", lambda s: s.replace("        if len(B_m_values) > K_MAX:\n", "        if K_MAX < len(B_m_values):\n")),
+    ("descriptors: the fixed step given a name", "btclib.descriptors.descriptors", lambda s: s.replace("        return replace(\n            key, der_path=(*key.der_path, key.wildcard + index), wildcard=None\n        )", "        step = key.wildcard + index\n        return replace(key, der_path=(*key.der_path, step), wildcard=None)")),
+    ("engine script: the key's encoding judged through a local", "btclib.script.engine.script", lambda s: s.replace("    if not check_pub_key(pub_key, segwit, flags):\n", "    key_ok = check_pub_key(pub_key, segwit, flags)\n    if not key_ok:\n", 1)),
+    ("psbt_view: tx answered through a local copy", "btclib.psbt.psbt_view", lambda s: s.replace("        return deepcopy(self._transaction())\n", "        kept = self._transaction()\n        return deepcopy(kept)\n")),
     ("script_op_codes: stack size comparison flipped", "btclib.script.engine.script_op_codes", lambda s: s.replace("len(stack) + len(altstack) > MAX_STACK_SIZE", "MAX_STACK_SIZE < len(stack) + len(altstack)")),
 ]
 
